@@ -63,7 +63,7 @@ SRC_KERNELS = {
     "C08": ["get_levels_tree_from_i", "find_end_subtree_from_i", "find_id_args_from_i", "Tree_subtree_id", "Tree_subtree", "Tree_concat", "shrink_mutation"],
     "C09": ["find_end_subtree_from_i", "find_id_args_from_i", "find_first_difference_between_two", "common_region_two_trees",
             "Tree_subtree_id", "Tree_subtree", "Tree_concat"],
-    "C11": ["binary_search_interval", "check_for_value", "argsort_k", "tournament_selection", "sattolo_shuffle", "random_sample", "random_weighted_sample"],
+    "C11": ["binary_search_interval", "check_for_value", "argsort_k", "tournament_selection", "proportional_selection", "rank_selection", "sattolo_shuffle", "random_sample", "random_weighted_sample"],
     "C16": ["get_n_jobs"],
     "C19": ["recall_counts", "precision_counts", "f1_counts"],
 }
